@@ -325,6 +325,20 @@ func meta(a sdk.AccAddress) valsettypes.MsgMetadata {
 	return valsettypes.MsgMetadata{Creator: a.String(), Signers: []string{a.String()}}
 }
 
+// limitPeriod is the limit period this driver process configures (VERIF_LIMIT_PERIOD, default DAILY); the window
+// length the trace specification expects is a constant of its configuration, the one reported comes from the real code.
+func limitPeriod() st.LimitPeriod {
+	switch os.Getenv("VERIF_LIMIT_PERIOD") {
+	case "WEEKLY":
+		return st.LimitPeriod_WEEKLY
+	case "MONTHLY":
+		return st.LimitPeriod_MONTHLY
+	case "YEARLY":
+		return st.LimitPeriod_YEARLY
+	}
+	return st.LimitPeriod_DAILY
+}
+
 func (r *run) step(s drv.Step) (res string, extra map[string]any) {
 	var a args
 	if err := json.Unmarshal(s.Args, &a); err != nil {
@@ -391,7 +405,7 @@ func (r *run) step(s drv.Step) (res string, extra map[string]any) {
 			ex = append(ex, r.w.users[u-1].String())
 		}
 		h := skywaykeeper.NewSkywayProposalHandler(e.Skyway)
-		if err := h(r.ctx, &st.SetBridgeTransferLimitProposal{Title: "t", Description: "d", Token: r.w.tokens[a.D-1].denom, Limit: math.NewInt(int64(a.Lim)), LimitPeriod: st.LimitPeriod_DAILY, ExemptAddresses: ex}); err != nil {
+		if err := h(r.ctx, &st.SetBridgeTransferLimitProposal{Title: "t", Description: "d", Token: r.w.tokens[a.D-1].denom, Limit: math.NewInt(int64(a.Lim)), LimitPeriod: limitPeriod(), ExemptAddresses: ex}); err != nil {
 			panic(err)
 		}
 		res = "gov"
@@ -550,7 +564,7 @@ func driveBridge(t *testing.T, sameContract bool) {
 			r.ethH[c] = 1000
 		}
 		r.setHeight(0)
-		em.Emit(map[string]any{"h": h.H, "i": 0, "act": "Init", "obs": r.observe(), "period": int(blocks.DailyHeight)})
+		em.Emit(map[string]any{"h": h.H, "i": 0, "act": "Init", "obs": r.observe(), "period": int((&st.BridgeTransferLimit{LimitPeriod: limitPeriod()}).BlockLimit())})
 		for i, s := range h.Steps {
 			res, extra := r.step(s)
 			ev := map[string]any{"h": h.H, "i": i + 1, "act": s.Act, "args": json.RawMessage(s.Args), "res": res, "obs": r.observe()}
